@@ -402,15 +402,15 @@ build_whole_unit("C10.build_end_to_end", "C10")
 build_whole_unit("C10.build_end_to_end.per_chain_states", "C10", "B")
 
 
-def builder_setup(ip):
-    """a REAL EngineBuilder (2 chains, symbolic seed) with a stub model, two ghost kernels and a replicated initial state; returns (builder, mk_schedule, B-schedule holder)"""
+def builder_setup(ip, n_chains=2):
+    """a REAL EngineBuilder (n_chains chains, symbolic seed) with a stub model, two ghost kernels and a replicated initial state; returns (builder, mk_schedule, B-schedule holder)"""
     c = ip.ctx
     from contracts.c07 import IDENTS, ghost_kernel, install_engine_models
     install_engine_models(ip)
     key_models(ip)
     ip.models["jax.jit"] = lambda ip_, f, **kw: f
     ip.models["isinstance:jax.Array"] = lambda ip_, x: (is_z3(x) and x.sort() == U) or (isinstance(x, PyObj) and x.name == "keys")
-    ip.opaque_attr["shape"] = lambda ip_, v: (2,)
+    ip.opaque_attr["shape"] = lambda ip_, v: (2,)  # the shape of a single PRNG key
 
     def split(ip_, key, num=2):
         n = ip_.conc_int(num)
@@ -431,7 +431,7 @@ def builder_setup(ip):
         k.attrs["_model"] = None
         k.attrs["has_model"] = PyFn(lambda ip_, k=k: k.attrs["_model"] is not None, "has_model")
         k.attrs["set_model"] = PyFn(lambda ip_, m, k=k: k.attrs.__setitem__("_model", m), "set_model")
-    b = ip.call(ip.repo(B), [c.fresh("seed", Int), 2], {})
+    b = ip.call(ip.repo(B), [c.fresh("seed", Int), n_chains], {})
     ip.call(method(ip, b, "set_model"), [model], {})
     ip.call(method(ip, b, "set_initial_values"), [z3.Const("initial_state", U)], {})
     for k in ks:
@@ -488,40 +488,45 @@ def rebuild_unit(uid, prop):
 
 rebuild_unit("C10.builder_reused_after_schedule_change", "C10")
 
-@unit("C10.jitter_functions_can_be_replaced_and_switched_off", "C10", [f"{B}.set_jitter_fns", f"{B}.jitter_fns.fget", f"{B}.build", f"{E}.__init__"],
-      assumptions=["A-VMAP / A-JIT", "history on ONE real builder: set_jitter_fns(F) - build - set_jitter_fns(G) - build - set_jitter_fns(None) - build - set_jitter_fns(F) - set_jitter_fns({}) - build"])
-def u_jitter_reset(ip):
-    """'the configured jitter' is what the LAST set_jitter_fns call configured: replaced functions replace the earlier ones, None or an empty
-    mapping switches jitter off - the engine then starts from the supplied initial values themselves."""
-    c = ip.ctx
-    b, mk = builder_setup(ip)
-    ip.call(method(ip, b, "set_epochs"), [mk(((0, 1, 1), (4, 6, 1)))], {})
-    init = z3.Const("initial_state", U)
-    stacked = ip.uf("stack", init, init)
-    ku = lambda ip_, k: ip_.to_U(k.attrs["kids"]) if isinstance(k, PyObj) else ip_.to_U(k)  # noqa: E731
-    F = {"p0": PyFn(lambda ip_, k, v: ip_.uf("jitter_F", ku(ip_, k), ip_.to_U(v)), "F")}
-    G_ = {"p0": PyFn(lambda ip_, k, v: ip_.uf("jitter_G", ku(ip_, k), ip_.to_U(v)), "G")}
+def jitter_reset_unit(uid, n_chains):
+  @unit(uid, "C10", [f"{B}.set_jitter_fns", f"{B}.jitter_fns.fget", f"{B}.build", f"{E}.__init__"],
+        assumptions=["A-VMAP / A-JIT", f"{n_chains} chain(s); history on ONE real builder: set_jitter_fns(F) - build - set_jitter_fns(G) - build - set_jitter_fns(None) - build - set_jitter_fns(F) - set_jitter_fns({{}}) - build"])
+  def u_jitter_reset(ip):
+      """'the configured jitter' is what the LAST set_jitter_fns call configured: replaced functions replace the earlier ones, None or an empty
+      mapping switches jitter off - the engine then starts from the supplied initial values themselves."""
+      c = ip.ctx
+      b, mk = builder_setup(ip, n_chains)
+      ip.call(method(ip, b, "set_epochs"), [mk(((0, 1, 1), (4, 6, 1)))], {})
+      init = z3.Const("initial_state", U)
+      stacked = ip.uf("stack", *([init] * n_chains))
+      ku = lambda ip_, k: ip_.to_U(k.attrs["kids"]) if isinstance(k, PyObj) else ip_.to_U(k)  # noqa: E731
+      F = {"p0": PyFn(lambda ip_, k, v: ip_.uf("jitter_F", ku(ip_, k), ip_.to_U(v)), "F")}
+      G_ = {"p0": PyFn(lambda ip_, k, v: ip_.uf("jitter_G", ku(ip_, k), ip_.to_U(v)), "G")}
 
-    def states(tag):
-        kind, eng = try_call(ip, method(ip, b, "build"), [], {})
-        c.oblige(f"{tag}.build_succeeds", kind == "ok", raised=str(getattr(eng, "cls", "")))
-        return str(ip.to_U(eng.f["_model_states"])) if kind == "ok" else None
+      def states(tag):
+          kind, eng = try_call(ip, method(ip, b, "build"), [], {})
+          c.oblige(f"{tag}.build_succeeds", kind == "ok", raised=str(getattr(eng, "cls", "")))
+          return str(ip.to_U(eng.f["_model_states"])) if kind == "ok" else None
 
-    ip.call(method(ip, b, "set_jitter_fns"), [F], {})
-    s_f = states("with_F")
-    c.oblige("with_F.initial_states_jittered_by_F", s_f is not None and "jitter_F" in s_f and "jitter_G" not in s_f)
-    ip.call(method(ip, b, "set_jitter_fns"), [G_], {})
-    s_g = states("replaced_by_G")
-    c.oblige("replaced_by_G.initial_states_jittered_by_G_only", s_g is not None and "jitter_G" in s_g and "jitter_F" not in s_g)
-    ip.call(method(ip, b, "set_jitter_fns"), [None], {})
-    s_n = states("switched_off_with_None")
-    c.oblige("switched_off_with_None.initial_states_are_the_supplied_values", s_n is not None and s_n == str(stacked))
-    ip.call(method(ip, b, "set_jitter_fns"), [F], {})
-    ip.call(method(ip, b, "set_jitter_fns"), [{}], {})
-    s_e = states("switched_off_with_empty_mapping")
-    # (an empty mapping may still go through update_state with an empty position - a value-preserving call; what matters is that no earlier function is applied)
-    c.oblige("switched_off_with_empty_mapping.no_jitter_function_applied", s_e is not None and "jitter_" not in s_e and str(init) in s_e)
+      ip.call(method(ip, b, "set_jitter_fns"), [F], {})
+      s_f = states("with_F")
+      c.oblige("with_F.initial_states_jittered_by_F", s_f is not None and "jitter_F" in s_f and "jitter_G" not in s_f)
+      ip.call(method(ip, b, "set_jitter_fns"), [G_], {})
+      s_g = states("replaced_by_G")
+      c.oblige("replaced_by_G.initial_states_jittered_by_G_only", s_g is not None and "jitter_G" in s_g and "jitter_F" not in s_g)
+      ip.call(method(ip, b, "set_jitter_fns"), [None], {})
+      s_n = states("switched_off_with_None")
+      c.oblige("switched_off_with_None.initial_states_are_the_supplied_values", s_n is not None and s_n == str(stacked))
+      ip.call(method(ip, b, "set_jitter_fns"), [F], {})
+      ip.call(method(ip, b, "set_jitter_fns"), [{}], {})
+      s_e = states("switched_off_with_empty_mapping")
+      # (an empty mapping may still go through update_state with an empty position - a value-preserving call; what matters is that no earlier function is applied)
+      c.oblige("switched_off_with_empty_mapping.no_jitter_function_applied", s_e is not None and "jitter_" not in s_e and str(init) in s_e)
+  return u_jitter_reset
 
+
+jitter_reset_unit("C10.jitter_functions_can_be_replaced_and_switched_off", 2)
+jitter_reset_unit("C10.jitter_functions_can_be_replaced_and_switched_off.single_chain", 1)
 
 
 # the engine constructor: every chain's kernels are initialised from THAT chain's model state and its own key (same harness as C07.engine_init)
